@@ -305,3 +305,96 @@ def _subst(t, old, new):
     if not isinstance(t, tuple):
         return t
     return tuple(_subst(x, old, new) if isinstance(x, tuple) else x for x in t)
+
+
+WANT_LEAVES = {
+    ("type", "webauthn::Icon"): {"&str"},
+    ("with", "webauthn::PublicKeyCredentialUserEntity", "icon"): {"&str"},
+    ("with", "webauthn::PublicKeyCredentialUserEntity", "name"): {"core::option::Option<&str>"},
+    ("with", "webauthn::PublicKeyCredentialUserEntity", "display_name"): {"core::option::Option<&str>"},
+    ("with", "webauthn::PublicKeyCredentialRpEntity", "name"): {"core::option::Option<&str>"},
+    ("type", "ctap2::AttestationFormatsPreference"): {"&str"},
+    ("type", "webauthn::FilteredPublicKeyCredentialParameters"): {"webauthn::PublicKeyCredentialParameters"},
+}
+
+
+def handwritten_leaves(F):
+    """{key: set of leaf types decoded by hand-written code}, key = ('type', T) for the Deserialize impl of T (its nested visitors
+    included, whatever they are called), ('with', struct, field) for a `deserialize_with` function of a member, ('fn', path) for
+    hand-written decoding code reachable from neither.  Helpers called by a decoder are attributed to it."""
+    from . import hirq as H
+    import re as _re
+    own = {}
+    calls = {}
+    for f in F.fns:
+        if f["pv"] != "user":
+            continue
+        for x in H.walk(f["body"]):
+            if x.get("pv") != "user":
+                continue
+            c = x.get("callee")
+            ta = x.get("targs") or []
+            t = None
+            if c == "serde_core::de::Deserialize::deserialize" and ta:
+                t = ta[0]
+            elif c in ("serde_core::de::SeqAccess::next_element", "serde_core::de::MapAccess::next_value", "serde_core::de::MapAccess::next_key") and len(ta) > 1:
+                t = ta[1]
+            elif c in ("serde_core::de::MapAccess::next_entry",) and len(ta) > 2:
+                t = ta[1] + " / " + ta[2]
+            if t is not None:
+                own.setdefault(f["path"], set()).add(erase_lt(t))
+            tgt = x.get("resolved") or c
+            if x.get("k") in ("call", "mcall") and tgt in F.fns_by_path and len(F.fns_by_path[tgt]) == 1 and F.fns_by_path[tgt][0]["pv"] == "user":
+                calls.setdefault(f["path"], set()).add(tgt)
+            if x.get("k") == "path" and x["res"].get("rk") in ("Fn", "AssocFn") and x["res"].get("path") in F.fns_by_path:
+                calls.setdefault(f["path"], set()).add(x["res"]["path"])
+
+    def closure(path):
+        seen, todo = set(), [path]
+        while todo:
+            p = todo.pop()
+            if p in seen:
+                continue
+            seen.add(p)
+            todo.extend(calls.get(p, ()))
+        return seen
+
+    def key_of(path):
+        m = _re.match(r"^<+(.*?) as serde_core::de::Deserialize<'de>>", path)
+        if m:
+            return ("type", m.group(1))
+        return None
+
+    with_fns = {}
+    for a in F.adts.values():
+        if not a["local"] or a["kind"] != "struct":
+            continue
+        try:
+            tab = decode_table(F, a["path"])
+        except Exception:
+            tab = None
+        for mm in (tab or {"members": []})["members"]:
+            if mm.get("with"):
+                with_fns.setdefault(mm["with"]["fn"], []).append(("with", a["path"], mm["field"]))
+    out = {}
+    attributed = set()
+    roots = {}
+    for path in set(own) | set(calls):
+        k = key_of(path)
+        if k:
+            roots.setdefault(k, set()).add(path)
+    for fnp, keys in with_fns.items():
+        for k in keys:
+            roots.setdefault(k, set()).add(fnp)
+    for k, ps in roots.items():
+        leaves = set()
+        for p in ps:
+            for q in closure(p):
+                leaves |= own.get(q, set())
+                attributed.add(q)
+        if leaves:
+            out[k] = leaves
+    for p, ls in own.items():
+        if p not in attributed:
+            out[("fn", p)] = ls
+    return out
